@@ -853,6 +853,12 @@ func explainAliasedExpr(sb *strings.Builder, n *ast.AliasedExpr, depth int) {
 	case *ast.IsNullExpr:
 		// IS NULL expressions with alias
 		explainIsNullExprWithAlias(sb, e, n.Alias, indent, depth)
+	case *ast.BetweenExpr:
+		// BETWEEN expressions with alias
+		explainBetweenExprWithAlias(sb, e, n.Alias, indent, depth)
+	case *ast.LikeExpr:
+		// LIKE expressions with alias
+		explainLikeExprWithAlias(sb, e, n.Alias, indent, depth)
 	case *ast.Parameter:
 		// QueryParameter with alias
 		if e.Name != "" {
